@@ -272,6 +272,17 @@ def run_case(case):
                 z.subscribe(sh["sub"])
                 ac.subscribe(sh["sub"])
                 shared.append(sh)
+        # one handler for all zones (it is told which zone by the identifier): a frame that
+        # changes several of them calls it once per changed zone
+        # (own generator: the rest of the case keeps the random choices it had before)
+        rnd_multi = random.Random(case["seed"] ^ 0x5A5A5A)
+        multi = None
+        all_zones = [z for ac in at.air_conditioners for z in ac.zones]
+        if len(all_zones) >= 2 and rnd_multi.random() < 0.6:
+            multi = {"sub": H.Sub(log, "multi:zones", hashv=rnd_multi.getrandbits(20)),
+                     "zones": sorted({z.zone_id for z in all_zones})}
+            for z in all_zones:
+                z.subscribe(multi["sub"])
         for s in subs:
             if s.get("early"):
                 continue
@@ -433,6 +444,19 @@ def run_case(case):
                                                 "step": step}})
             if step % 5 == 0:
                 gc.collect()
+            if multi is not None:
+                got = [a[0] if a else None for a in calls.get(multi["sub"].name, [])]
+                due = sorted({ch[2] for ch in changes if ch[1] == "zone" and ch[3] is True
+                              and ch[2] in multi["zones"]})
+                if len(due) >= 2:
+                    obs["one_callable_on_several_zones_changed_together"] = obs.get(
+                        "one_callable_on_several_zones_changed_together", 0) + 1
+                miss = [zid for zid in due if zid not in got]
+                if miss:
+                    viol.append({"mechanism": "subscriber-not-called-on-change:"
+                                 "one_callable_on_several_zones",
+                                 "detail": {"got_ids": got, "missing_ids": miss, "due": due,
+                                            "frame": raw, "step": step}})
             for sh in shared:
                 got = [a[0] if a else None for a in calls.get(sh["sub"].name, [])]
                 zmust = any(ch[1] == "zone" and ch[2] == sh["zone"] and ch[3] is True
